@@ -35,6 +35,7 @@ type Exec struct {
 	loopInitDone map[string]bool
 	fenv         *Env
 	canaries     bool
+	refHeaps     map[string]bool
 	canaryN      map[string]int
 }
 
@@ -82,7 +83,71 @@ func (ex *Exec) heap(st *State, name, sort string) Term {
 	}
 	t := ex.D.Const(base+":"+name, sort)
 	st.Heaps[name] = t
+	if base == "H0" && ex.isRefHeap(name) {
+		ex.refAxiom(name, sort)
+	}
 	return t
+}
+
+// markRef notes that a heap component holds references (must be called before the component
+// is first used).
+func (ex *Exec) markRef(name string) {
+	if ex.refHeaps == nil {
+		ex.refHeaps = map[string]bool{}
+	}
+	ex.refHeaps[name] = true
+}
+
+// refAxiom: every reference stored anywhere in the entry-state heap designates an object that
+// already existed, i.e. lies at or below the entry watermark (well-typed heap). Objects created
+// later get their contents in later heap versions, never in the entry heap.
+func (ex *Exec) refAxiom(name, sort string) {
+	sym := smtSym("H0:" + name)
+	key := "refheap:" + sym
+	if ex.D.seen[key] {
+		return
+	}
+	ex.D.seen[key] = true
+	if strings.HasPrefix(sort, "(Array Int (Array Int ") {
+		ex.D.lines = append(ex.D.lines, declLine{sym, fmt.Sprintf("(assert (forall ((a Int) (i Int)) (! (<= (root (select (select %s a) i)) top0) :pattern ((select (select %s a) i)))))", sym, sym)})
+	} else if sort == ArrSort(SInt) {
+		ex.D.lines = append(ex.D.lines, declLine{sym, fmt.Sprintf("(assert (forall ((r Int)) (! (<= (root (select %s r)) top0) :pattern ((select %s r)))))", sym, sym)})
+	}
+}
+
+func (ex *Exec) refHeap(name string, twoD bool) { ex.markRef(name) }
+
+func (ex *Exec) isRefHeap(name string) bool {
+	return ex.refHeaps[name] || strings.HasSuffix(name, "#arr") || strings.HasSuffix(name, "#ref")
+}
+
+// freshHeapVal creates an unknown heap component (or an unknown part of one) of the given
+// sort. For reference-valued components the well-typedness bound is attached: every reference
+// it holds designates an object that exists now (root <= current watermark).
+func (ex *Exec) freshHeapVal(st *State, name, base, sort string) Term {
+	t := ex.D.Fresh(base, sort)
+	if !ex.isRefHeap(name) {
+		return t
+	}
+	switch {
+	case sort == SInt:
+		st.Assume(Le(App(SInt, "root", t), st.Top))
+	case sort == ArrSort(SInt):
+		st.Assume(Term{fmt.Sprintf("(forall ((r Int)) (! (<= (root (select %s r)) %s) :pattern ((select %s r))))", t.S, st.Top.S, t.S), SBool})
+	case sort == Arr2Sort(SInt):
+		st.Assume(Term{fmt.Sprintf("(forall ((a Int) (i Int)) (! (<= (root (select (select %s a) i)) %s) :pattern ((select (select %s a) i))))", t.S, st.Top.S, t.S), SBool})
+	}
+	return t
+}
+
+func isRefComp(t types.Type, c comp) bool {
+	switch c.Suffix {
+	case "#arr", "#ref":
+		return true
+	case "":
+		return kindOf(t) == KRef
+	}
+	return false
 }
 
 var freshSymRe = regexp.MustCompile(`!([0-9]+)`)
@@ -149,6 +214,22 @@ func (ex *Exec) loadLoc(st *State, l Loc) Val {
 		v := ex.zeroVal(st, l.Typ)
 		fr.Cells[l.Alloc] = v
 		return v
+	case LCellPath:
+		fr := st.Frames[l.Frame]
+		v, ok := fr.Cells[l.Alloc]
+		if !ok {
+			v = ex.zeroVal(st, deref(l.Alloc.Type()))
+			fr.Cells[l.Alloc] = v
+		}
+		for _, i := range l.Path {
+			sv, ok := v.(*StructV)
+			if !ok {
+				ex.unsupported("field path into a non-struct local value")
+				return ex.zeroVal(st, l.Typ)
+			}
+			v = sv.F[i]
+		}
+		return v
 	case LGlobal:
 		if v, ok := st.Globals[l.Global]; ok {
 			return v
@@ -184,6 +265,9 @@ func (ex *Exec) loadLoc(st *State, l Loc) Val {
 		cs := leafComps(l.Typ)
 		ts := make([]Term, len(cs))
 		for i, c := range cs {
+			if isRefComp(l.Typ, c) {
+				ex.refHeap(l.Heap+c.Suffix, false)
+			}
 			ts[i] = Select(ex.heap(st, l.Heap+c.Suffix, ArrSort(c.Sort)), l.Ref)
 		}
 		return unflatten(l.Typ, ts)
@@ -191,6 +275,9 @@ func (ex *Exec) loadLoc(st *State, l Loc) Val {
 		cs := leafComps(l.Typ)
 		ts := make([]Term, len(cs))
 		for i, c := range cs {
+			if isRefComp(l.Typ, c) {
+				ex.refHeap(l.Heap+c.Suffix, true)
+			}
 			ts[i] = Select(Select(ex.heap(st, l.Heap+c.Suffix, Arr2Sort(c.Sort)), l.Ref), l.Idx)
 		}
 		return unflatten(l.Typ, ts)
@@ -214,6 +301,27 @@ func (ex *Exec) storeLoc(st *State, l Loc, v Val) {
 	switch l.Kind {
 	case LCell:
 		st.Frames[l.Frame].Cells[l.Alloc] = v
+	case LCellPath:
+		fr := st.Frames[l.Frame]
+		root, ok := fr.Cells[l.Alloc]
+		if !ok {
+			root = ex.zeroVal(st, deref(l.Alloc.Type()))
+		}
+		var set func(cur Val, path []int) Val
+		set = func(cur Val, path []int) Val {
+			if len(path) == 0 {
+				return v
+			}
+			sv, ok := cur.(*StructV)
+			if !ok {
+				ex.unsupported("field store into a non-struct local value")
+				return cur
+			}
+			n := &StructV{T: sv.T, F: append([]Val(nil), sv.F...)}
+			n.F[path[0]] = set(sv.F[path[0]], path[1:])
+			return n
+		}
+		fr.Cells[l.Alloc] = set(root, l.Path)
 	case LGlobal:
 		st.Globals[l.Global] = v
 		if ex.disc != nil {
